@@ -157,7 +157,7 @@ def _run(cfg):
     return v, len(a) + len(b)
 
 
-CONFIGS = [{}, {'rib': True}, {'local_as': 4200000001, 'hold': 30}, {'debug_log': True}, {'gethost_fails': 1}]
+CONFIGS = [{}, {'rib': True}, {'local_as': 4200000001, 'hold': 30}, {'debug_log': True}, {'gethost_fails': 1}, {'add_path': 'ipv4_both'}]
 
 
 def run(prop):
